@@ -8,6 +8,7 @@ import (
 	"fmt"
 	"io"
 	"log"
+	"os"
 	"reflect"
 	"sort"
 	"strings"
@@ -1109,8 +1110,8 @@ func (g *gen) dispOp() string {
 	}
 	h.Count(fmt.Sprintf("disp.notify%d", hx.B2i(reqid == 0)))
 	h.Count(fmt.Sprintf("disp.ncols%d", len(cols)))
-	return fmt.Sprintf("disp cols=%s route=%s reqid=%d beh=%s data=%s%s", strings.Join(cols, ","), hx16(t.route), reqid, beh, hx.Hex(data),
-		decodeHints(sproto.GetDefaultSerializer(), data))
+	return fmt.Sprintf("disp cols=%s route=%s reqid=%d beh=%s rc=%s data=%s%s", strings.Join(cols, ","), hx16(t.route), reqid, beh,
+		hx16(reflect.TypeOf(service.NewRemoteContext()).String()), hx.Hex(data), decodeHints(sproto.GetDefaultSerializer(), data))
 }
 
 func (g *gen) shapeOp() string {
@@ -1143,6 +1144,117 @@ func (g *gen) shapeOp() string {
 	return "shape ix=" + strings.Join(strs, ",") + " " + methodFacts(m)
 }
 
+// countObs: which outcome classes the generator reached
+func countObs(h *hx.T, op, obs string) {
+	kind := op
+	if i := strings.IndexByte(op, ' '); i > 0 {
+		kind = op[:i]
+	}
+	switch kind {
+	case "csz", "call", "disp":
+		cb := strings.Contains(op, " cb=1") || (kind == "disp" && !strings.Contains(op, " reqid=0 "))
+		ran := !strings.Contains(obs, "ran=-")
+		switch {
+		case strings.Contains(obs, "panic"):
+			h.Count("reached." + kind + ".ESCAPING-PANIC")
+		case ran && strings.Contains(obs, "comps=-"):
+			h.Count(fmt.Sprintf("reached.%s.handler-ran.no-completion.cb%d", kind, hx.B2i(cb)))
+		case ran && strings.Contains(obs, ",f:err"):
+			h.Count("reached." + kind + ".handler-completed-then-panicked")
+		case ran && strings.Contains(obs, "comps=f:err"):
+			h.Count("reached." + kind + ".handler-panicked.framework-completed")
+		case ran && strings.Contains(obs, ",h:"):
+			h.Count("reached." + kind + ".handler-completed-twice")
+		case ran:
+			h.Count("reached." + kind + ".handler-completed-once")
+		case cb && strings.Contains(obs, "comps=-"):
+			h.Count("reached." + kind + ".cb-never-completed(D11)")
+		case cb:
+			h.Count("reached." + kind + ".framework-error-completion")
+		default:
+			h.Count("reached." + kind + ".notify-dropped")
+		}
+	case "has":
+		h.Count("reached.has." + obs[:1])
+	case "meth", "shape":
+		h.Count("reached." + kind + "." + obs)
+	case "build":
+		if strings.HasPrefix(obs, "n=0 ") {
+			h.Count("reached.build.empty")
+		} else {
+			h.Count("reached.build.nonempty")
+		}
+	}
+}
+
+// exhaustiveShapes: every synthetic method with receiver *ZooA and up to maxIn parameters drawn from the whole type pool
+func exhaustiveShapes(h *hx.T, run func(string), maxIn int) {
+	n := 0
+	var rec func(ix []int)
+	emit := func(ix []int) {
+		strs := make([]string, len(ix))
+		for i, x := range ix {
+			strs[i] = fmt.Sprint(x)
+		}
+		for exp := 0; exp <= 1; exp++ {
+			op := fmt.Sprintf("shape exp=%d var=0 ix=%s", exp, strings.Join(strs, ","))
+			m, _ := shapeMethod(hx.Words(op))
+			run("shape ix=" + strings.Join(strs, ",") + " " + methodFacts(m))
+			n++
+		}
+	}
+	rec = func(ix []int) {
+		emit(ix)
+		if len(ix) >= maxIn {
+			return
+		}
+		for t := range shapePool {
+			rec(append(append([]int(nil), ix...), t))
+		}
+	}
+	emit(nil)
+	rec([]int{0})
+	h.Stats[fmt.Sprintf("exhaustive.shapes.nin<=%d", maxIn)] = n
+}
+
+// exhaustiveRoutes: every route of up to maxSeg segments over a small segment alphabet, against one fixed case
+func exhaustiveRoutes(h *hx.T, run func(string), maxSeg int) {
+	run("reset")
+	for _, l := range methLines(zoo[0]) {
+		run(l)
+	}
+	for _, l := range methLines(zoo[1]) {
+		run(l)
+	}
+	run("newcol col=0 reg=0")
+	run(fmt.Sprintf("entry col=0 eid=1 ty=ZooA ptr=1 tname=%s group=%s gvia=group nf=none", hx16("ZooA"), hx16("hello")))
+	run(fmt.Sprintf("entry col=0 eid=2 ty=ZooV ptr=1 tname=%s group=%s gvia=inner nf=lower", hx16("ZooV"), hx16("_")))
+	run("build col=0 via=col")
+	alphabet := []string{"", "_", "hello", "Join", "Say", "ptrjoin", "ptrsay", "x"}
+	dc := ctxTypeHex("dummy")
+	data := []byte(`{"abc":"e","n":2}`)
+	hints := decodeHints(mkSer("json"), data)
+	n := 0
+	var rec func(segs []string)
+	rec = func(segs []string) {
+		r := hx16(strings.Join(segs, "."))
+		run("has col=0 route=" + r)
+		run(fmt.Sprintf("csz col=0 route=%s ser=json ctx=dummy ctxt=%s cb=1 beh=ok data=%s%s", r, dc, hx.Hex(data), hints))
+		run(fmt.Sprintf("csz col=0 route=%s ser=json ctx=dummy ctxt=%s cb=0 beh=ok data=%s%s", r, dc, hx.Hex(data), hints))
+		n++
+		if len(segs) >= maxSeg {
+			return
+		}
+		for _, a := range alphabet {
+			rec(append(append([]string(nil), segs...), a))
+		}
+	}
+	for _, a := range alphabet {
+		rec([]string{a})
+	}
+	h.Stats[fmt.Sprintf("exhaustive.routes.segments<=%d.alphabet%d", maxSeg, len(alphabet))] = n
+}
+
 func silence() {
 	log.SetOutput(io.Discard)
 	for _, n := range []string{"default", "exception"} {
@@ -1156,7 +1268,11 @@ func TestRun(t *testing.T) {
 	silence()
 	h := hx.Open()
 	defer h.Close()
-	run := func(op string) { h.Emit(op, exec(op)) }
+	run := func(op string) {
+		obs := exec(op)
+		h.Emit(op, obs)
+		countObs(h, op, obs)
+	}
 	if ops := hx.ReplayOps(); ops != nil {
 		for _, op := range ops {
 			run(op)
@@ -1177,10 +1293,19 @@ func TestRun(t *testing.T) {
 			run(l)
 		}
 	}
-	for i := 0; i < n/4; i++ {
+	if h.Thorough() {
+		exhaustiveShapes(h, run, 4)
+		exhaustiveRoutes(h, run, 4)
+	} else {
+		exhaustiveShapes(h, run, 3)
+		exhaustiveRoutes(h, run, 3)
+	}
+	start := h.N
+	for h.N-start < n/5 {
 		h.Count("op.shape")
 		run(g.shapeOp())
 	}
+	n += h.N
 	for h.N < n {
 		g.caseSetup()
 		h.Count("case")
@@ -1201,5 +1326,37 @@ func TestRun(t *testing.T) {
 				run(g.dispOp())
 			}
 		}
+	}
+}
+
+// TestMkCorpus (development aid): VERIF_MKCORPUS=<template>:<out> completes hand-written
+// csz/disp op lines with the decode hints and `meth <Type>` lines with the
+// full descriptor listing of that zoo type.
+func TestMkCorpus(t *testing.T) {
+	spec := hx.Env("VERIF_MKCORPUS", "")
+	if spec == "" {
+		t.Skip()
+	}
+	parts := strings.SplitN(spec, ":", 2)
+	b, err := os.ReadFile(parts[0])
+	if err != nil {
+		t.Fatal(err)
+	}
+	var out []string
+	for _, l := range strings.Split(string(b), "\n") {
+		ws := hx.Words(l)
+		switch {
+		case len(ws) == 2 && ws[0] == "meth":
+			out = append(out, methLines(zooByName(ws[1]))...)
+		case len(ws) > 0 && ws[0] == "csz" && !strings.Contains(l, " d:"):
+			out = append(out, l+decodeHints(mkSer(kvs(ws, "ser")), hx.KVHex(ws, "data")))
+		case len(ws) > 0 && ws[0] == "disp" && !strings.Contains(l, " d:"):
+			out = append(out, l+" rc="+hx16(reflect.TypeOf(service.NewRemoteContext()).String())+decodeHints(sproto.GetDefaultSerializer(), hx.KVHex(ws, "data")))
+		default:
+			out = append(out, l)
+		}
+	}
+	if err := os.WriteFile(parts[1], []byte(strings.Join(out, "\n")), 0o644); err != nil {
+		t.Fatal(err)
 	}
 }
